@@ -32,6 +32,25 @@ TRUSTED_BASE = [
 ]
 
 
+class ImplTimeout(BaseException):
+    """raised inside an implementation call that exceeds its time limit (BaseException: not swallowed by `except Exception`)"""
+
+
+def time_limited(seconds, fn, *a, **k):
+    """Run fn under a wall-clock limit; a hanging or exploding implementation becomes a reportable disagreement."""
+    import signal
+
+    def handler(sig, frm):
+        raise ImplTimeout('implementation call exceeded %ss' % seconds)
+    old = signal.signal(signal.SIGALRM, handler)
+    signal.setitimer(signal.ITIMER_REAL, seconds)
+    try:
+        return fn(*a, **k)
+    finally:
+        signal.setitimer(signal.ITIMER_REAL, 0)
+        signal.signal(signal.SIGALRM, old)
+
+
 def sh(cmd, cwd=None, timeout=None, env=None, input=None):
     p = subprocess.run(cmd, cwd=cwd, timeout=timeout, env=env, input=input,
                        stdout=subprocess.PIPE, stderr=subprocess.STDOUT, text=True)
